@@ -68,8 +68,19 @@ def _roles(ctx: Ctx) -> None:
             rets = [r.value for r in walk_no_nested(f.node) if isinstance(r, ast.Return) and r.value is not None]
             d_f = Defs(f)
 
-            def in_sorted_order(v: ast.AST) -> bool:
-                """The value is a sorter's result, or is built by walking ONE sorter's result (an argsort: `[items[i] for i in order]`)."""
+            cfg_f = ctx.cfg(f)
+            ret_nodes_f = cfg_f.nodes(lambda s_: isinstance(s_, ast.Return))
+
+            def in_sorted_order(v: ast.AST, _depth: int = 0) -> bool:
+                """The value is a sorter's result, or is built by walking ONE sorter's result (an argsort: `[items[i] for i in order]`).
+                A local that is re-bound under a condition (`if sort: items = sorted(items)`) is sorted only if EVERY binding
+                that reaches the return is."""
+                if isinstance(v, ast.Name) and d_f.unique(v.id) is None and ret_nodes_f and _depth < 3:
+                    from ..flow import reaching_values
+
+                    rv = reaching_values(cfg_f, v.id, ret_nodes_f[-1])
+                    if rv is not None and len(rv) >= 2:
+                        return all(in_sorted_order(x_, _depth + 1) for _n, x_ in rv)
                 r = d_f.resolve(v)
                 if isinstance(r, ast.Call) and _last(dotted(r.func)) in sort:
                     return True
@@ -82,7 +93,11 @@ def _roles(ctx: Ctx) -> None:
             if rets and all(in_sorted_order(v) for v in rets):
                 sort.add(f.name)
             # a converter applies a converter inside a comprehension / loop over its argument
-            if any(isinstance(c, ast.Call) and _last(dotted(c.func)) in conv for it in iterations(f.node) for c in ast.walk(it["node"])) and f.params and not f.name.startswith("__"):
+            # (a local alias counts: `convert = functools.partial(to_hashable, fallback_to_pickle=...)`)
+            local_conv = {t_.id for a_ in walk_no_nested(f.node) if isinstance(a_, ast.Assign) for t_ in a_.targets if isinstance(t_, ast.Name)
+                          and ((isinstance(a_.value, ast.Call) and _last(dotted(a_.value.func)) == "partial" and a_.value.args and _last(dotted(a_.value.args[0])) in conv)
+                               or (isinstance(a_.value, (ast.Name, ast.Attribute)) and _last(dotted(a_.value)) in conv))}
+            if any(isinstance(c, ast.Call) and _last(dotted(c.func)) in conv | local_conv for it in iterations(f.node) for c in ast.walk(it["node"])) and f.params and not f.name.startswith("__"):
                 if any("Iterable" in norm(a.annotation) or "Mapping" in norm(a.annotation) or "dict" in norm(a.annotation) for a in f.params if a.annotation is not None):
                     conv.add(f.name)
     # ... or hands its argument to such a function (a helper generator that converts the elements)
@@ -341,9 +356,25 @@ def rule_tagged(ctx: Ctx) -> None:
         if not isinstance(v, ast.Tuple):
             ctx.add("1-tagged", fn, r, None, "UNDECIDED: the returned key is not a tuple literal", key="tag " + norm(v)[:60])
             continue
-        marker = len(v.elts) >= 1 and "_HASH_MARKER" in norm(d.resolve(v.elts[0]))
-        typed = len(v.elts) == 3 and _type_valued(ctx, fn, v.elts[1])
-        ctx.tri("1-tagged", fn, r, marker and typed, len(v.elts) != 3 or not typed, "key is (marker, type(obj), payload)",
+        # `(*head, payload)` with `head = (marker, type)` (possibly re-bound on another path): every alternative is examined
+        alts: list[list[ast.AST]] | None = [[]]
+        for e_ in v.elts:
+            if not isinstance(e_, ast.Starred):
+                alts = [a_ + [e_] for a_ in alts] if alts is not None else None
+                continue
+            defs_ = [a_.value for a_ in walk_no_nested(fn.node) if isinstance(a_, (ast.Assign, ast.AnnAssign)) and a_.value is not None and isinstance(e_.value, ast.Name)
+                     and any(isinstance(t_, ast.Name) and t_.id == e_.value.id for t_ in (a_.targets if isinstance(a_, ast.Assign) else [a_.target]))]
+            if not defs_ or not all(isinstance(x_, ast.Tuple) and not any(isinstance(y_, ast.Starred) for y_ in x_.elts) for x_ in defs_) or alts is None:
+                alts = None
+                continue
+            alts = [a_ + list(x_.elts) for a_ in alts for x_ in defs_]
+        if alts is None:
+            ctx.add("1-tagged", fn, r, None, "UNDECIDED: the returned key splats something this rule cannot expand", key="tag " + norm(v)[:60])
+            continue
+        marker = all(len(a_) >= 1 and "_HASH_MARKER" in norm(d.resolve(a_[0])) for a_ in alts)
+        # the second component is the type itself, or (where the type cannot be hashed) its name
+        typed = all(len(a_) == 3 and (_type_valued(ctx, fn, a_[1]) or (isinstance(a_[1], ast.Attribute) and a_[1].attr in ("__name__", "__qualname__") and _type_valued(ctx, fn, a_[1].value))) for a_ in alts)
+        ctx.tri("1-tagged", fn, r, marker and typed, any(len(a_) != 3 for a_ in alts) or not typed, "key is (marker, type(obj), payload)",
                 "converted key is not tagged with the marker and the exact type of the value: look-alike values of different types collide", key="tag " + norm(v)[:60])
     ctx.floor("1-tagged", n, 12)
 
